@@ -606,6 +606,9 @@ func (sc *c16CKKS) runRefresh(d *c16Deploy, ct *rlwe.Ciphertext, m []*bignum.Com
 		return false
 	}
 	ctx.Event("%s ct-level=%d e2s-level=%d out-level=%d n=%d f=%s", name, level, e2sLevel, outLevel, d.n, desc)
+	if !outputOwnsMetadata(ctx, name, in, out) {
+		return false
+	}
 	if out.Level() != outLevel {
 		ctx.Fail("metadata", name+"|output-level", "output is at level %d, requested %d", out.Level(), outLevel)
 		return false
